@@ -5,7 +5,9 @@ from .. import rtfamily as R
 from .. import catalogue as K
 from .. import sx
 
-ALPHA = ["a", "b", "u", "z", "é", "", "x" * 70, "gone", "zz"]
+ALPHA = ["a", "b", "u", "z", "é", "", "x" * 70, "gone", "zz",
+         # strings that differ only in trailing NUL characters, and strings of 15 / 16 / 17 bytes (small-string tables)
+         "\u0000", "a\u0000", "a\u0000\u0000", "q" * 15, "q" * 16, "q" * 17, "q" * 15 + "\u0000"]
 
 
 def zz(v):
